@@ -699,3 +699,82 @@ def extra_evidence(cases, impl_out, model_out):
                 else:
                     cnt["linear"] = cnt.get("linear", 0) + 1
     return {"tick_texts_compared": n, "tick_text_branches": cnt}
+
+
+# ---------------------------------------------------------------------------
+# second family of this check: the option dictionaries (harness/props/c11opts.py,
+# coq/Render/Options.v).  Cases carry py["fam"] == "options"; every callback dispatches.
+# ---------------------------------------------------------------------------
+from harness.props import c11opts as _O  # noqa: E402
+
+RULE = RULE + " || " + _O.RULE
+
+
+def _opt(x):
+    py = x.get("py", x) if isinstance(x, dict) else {}
+    return isinstance(py, dict) and py.get("fam") == "options"
+
+
+def _dispatch(name, own):
+    theirs = getattr(_O, name)
+
+    def f(case, *a):
+        return theirs(case, *a) if _opt(case) else own(case, *a)
+    f.__name__ = name
+    return f
+
+
+impl = _dispatch("impl", impl)
+rebuild = _dispatch("rebuild", rebuild)
+oracle = _dispatch("oracle", oracle)
+nontrivial = _dispatch("nontrivial", nontrivial)
+compare = _dispatch("compare", compare)
+shrink_candidates = _dispatch("shrink_candidates", shrink_candidates)
+_matches_finding0 = matches_finding
+_gen0, _prepare0, _extra0, _search0 = gen, prepare_compare, extra_evidence, search
+
+
+def matches_finding(f, case, failure):
+    return False if _opt(case) else _matches_finding0(f, case, failure)
+
+
+def gen(rng, tier):
+    for c in _gen0(rng, tier):
+        yield c
+    for c in _O.gen(rng, tier):
+        yield c
+
+
+def _split(cases, *lists):
+    idx = [i for i, c in enumerate(cases) if not _opt(c)]
+    return idx
+
+
+def prepare_compare(cases, impl_out, model_out, workdir):
+    idx = [i for i, c in enumerate(cases) if not _opt(c)]
+    sub_c = [cases[i] for i in idx]
+    sub_i = [impl_out[i] for i in idx]
+    sub_m = [model_out[i] for i in idx]
+    _prepare0(sub_c, sub_i, sub_m, workdir)
+    for j, i in enumerate(idx):
+        cases[i], model_out[i] = sub_c[j], sub_m[j]
+
+
+def extra_evidence(cases, impl_out, model_out):
+    idx = [i for i, c in enumerate(cases) if not _opt(c)]
+    ev = _extra0([cases[i] for i in idx], [impl_out[i] for i in idx], [model_out[i] for i in idx])
+    ev["option_dict_cases"] = len(cases) - len(idx)
+    kinds = {}
+    for c in cases:
+        if _opt(c):
+            kinds[c.get("kind", "?")] = kinds.get(c.get("kind", "?"), 0) + 1
+    ev["option_dict_kinds"] = kinds
+    return ev
+
+
+def search(rng, tier, mism):
+    for c in _search0(rng, tier, [c for c in mism if not _opt(c)]):
+        yield c
+    for c in mism:
+        if _opt(c):
+            yield c
